@@ -9,10 +9,20 @@
 //	mutate_test.go  hostile constants and the structure-aware mutation operators (bytes, text, JSON)
 //	decode_test.go  TestDecode: every binary decoder of gen.Registry()
 //	text_test.go    TestText: every UnmarshalText / UnmarshalJSON / Parse* entry point
+//	multiproof_seed_test.go  hand-laid-out wire form "transactions that arrive with proofs + hostile numLeaves"
+//	deep_test.go    TestDeep: deeply nested policies (binary / text / JSON), each case in a child process
 //	fuzz_test.go    FuzzDecode / FuzzText native fuzz targets + their seed corpus as a plain unit
 //	known_test.go   TestKnown: probes of the defects found on the pinned tree + exclusion classes
 //
 // The mutant table is at the top of decode_test.go.
+//
+// Adding units (e.g. the validation half): write the Case type, draw and checker in a new
+// *_test.go file; inside the checker call journalCase(test, c) and then
+// r := guarded(test, inputLen, slack, func() { ...library call... }) and return
+// r.verdict(key, what, inputLen, slack) — that gives the unit the journal, the panic
+// recovery with stack, the allocation budget (pass a large slack where allocation is not the
+// point) and the hang watchdog; classifyPanic(r) maps a panic to a known-finding key. Then list
+// the test in check.json. This process runs with GOMAXPROCS=1 (see TestMain).
 package c10
 
 import (
